@@ -4,6 +4,10 @@ From Coq Require Import ZArith List Arith Lia Bool Permutation.
 From FF Require Import Model.Tensor Spec.Kron.
 Import ListNotations.
 
+Section Generic.
+Context {T : Type} {EN : Entry T} {EL : EntryLaws T}.
+Local Notation arr := (garr T).
+
 Definition inb (a s : list nat) : Prop := Forall2 (fun i d => i < d) a s.
 
 Lemma flat_map_ext_in {A B} (f g : A -> list B) l : (forall x, In x l -> f x = g x) -> flat_map f l = flat_map g l.
@@ -123,3 +127,4 @@ Proof.
   rewrite (nth_indep _ _ (f [])) by (rewrite map_length, indices_length; auto).
   rewrite map_nth. f_equal. rewrite nth_indices_unravel by auto. apply unravel_ravel; auto.
 Qed.
+End Generic.
